@@ -202,6 +202,9 @@ func (g *Gen) privKeyMaps(t *Type, env map[int]*Type) []*Val {
 // map): the special maps lifted through named types, pointers, slices, arrays, map values and fields.
 func (g *Gen) liftR5(t *Type, env map[int]*Type, is func(*Type) bool, special func(*Type, map[int]*Type) []*Val) []*Val {
 	rec := func(t *Type, env map[int]*Type) []*Val { return g.liftR5(t, env, is, special) }
+	if t.K != KMap && is(t) {
+		return special(t, env)
+	}
 	switch t.K {
 	case KNamed:
 		env2 := map[int]*Type{}
@@ -312,6 +315,97 @@ func PrivKeyPoolR5(g *Gen, t *Type) []*Val {
 		sp = sp[:16]
 	}
 	return append(append([]*Val{}, base...), sp...)
+}
+
+// ---------- types recursive through a map: trees whose inner maps outgrow everything hashed before ----------
+
+// RecMapTypesR5: three declarations in which a map leads back to the SAME map type (the function generated
+// for the map type re-enters itself while it ranges over the outer keys), each with a map type of its own:
+// through a pointer, by value, through a slice.
+func (c *Catalogue) RecMapTypesR5() []*Type {
+	recm := Named(21, "RecM", 0, nil)
+	recm.Elem = St(B("int"), M(B("string"), P(Ref(recm))))
+	recv := Named(22, "RecV", 0, nil)
+	recv.Elem = St(M(B("int"), Ref(recv)), Sl(B("string")))
+	recs := Named(23, "RecS", 0, nil)
+	recs.Elem = St(B("string"), M(B("string"), Sl(Ref(recs))))
+	return []*Type{recm, recv, recs}
+}
+
+func (c *Catalogue) RecMapShapesR5() []*Type {
+	ts := c.RecMapTypesR5()
+	return []*Type{ts[0], ts[1], ts[2], P(ts[1]), M(B("string"), ts[2]), Sl(ts[0])}
+}
+
+func isRecMapR5(t *Type) bool {
+	return t.K == KNamed && (t.Name == "RecM" || t.Name == "RecV" || t.Name == "RecS")
+}
+
+// recTrees: for each size in 5, 9, 17, 33 two Equal trees (populated in different orders, at different
+// addresses) of two levels whose child under the FIRST outer key has that many entries: every pair
+// brings an inner map larger than any map of the type seen before in the process.
+func (g *Gen) recTrees(t *Type, env map[int]*Type) []*Val {
+	key := func(i int) *Val { return vs("c" + string(rune('0'+i/10)) + string(rune('0'+i%10))) }
+	okey := func(i int) *Val { return vs(string(rune('a' + i))) }
+	var node func(label int, m *Val) *Val // a struct of the type
+	var wrap func(st *Val) *Val           // what the map holds
+	switch t.Name {
+	case "RecM":
+		node = func(label int, m *Val) *Val { return &Val{K: "st", Elems: []*Val{vi(int64(label)), m}} }
+		wrap = func(st *Val) *Val { return &Val{K: "p", Loc: g.Fresh(), Elems: []*Val{st}} }
+	case "RecV":
+		key = func(i int) *Val { return vi(int64(100 + 3*i)) }
+		okey = func(i int) *Val { return vi(int64(i - 1)) }
+		node = func(label int, m *Val) *Val {
+			return &Val{K: "st", Elems: []*Val{m, {K: "sl", Loc: g.Fresh(), Elems: []*Val{vs("n" + string(rune('0'+label%10)))}}}}
+		}
+		wrap = func(st *Val) *Val { return st }
+	default: // RecS
+		node = func(label int, m *Val) *Val {
+			return &Val{K: "st", Elems: []*Val{vs("n" + string(rune('0'+label%10))), m}}
+		}
+		wrap = func(st *Val) *Val { return &Val{K: "sl", Loc: g.Fresh(), Elems: []*Val{st}} }
+	}
+	nilm := func() *Val { return &Val{K: "nilm"} }
+	child := func(label, n int, desc bool) *Val {
+		m := &Val{K: "m", Loc: g.Fresh()}
+		for j := 0; j < n; j++ {
+			i := j
+			if desc {
+				i = n - 1 - j
+			}
+			m.KVs = append(m.KVs, [2]*Val{key(i), wrap(node(label+i, nilm()))})
+		}
+		return wrap(node(label, m))
+	}
+	tree := func(n int, variant bool) *Val {
+		kids := [][2]*Val{{okey(0), child(10, n, variant)}, {okey(1), child(20, 2, variant)}, {okey(2), wrap(node(30, nilm()))}}
+		order := []int{0, 1, 2}
+		if variant {
+			order = []int{2, 0, 1}
+		}
+		m := &Val{K: "m", Loc: g.Fresh()}
+		for _, i := range order {
+			m.KVs = append(m.KVs, kids[i])
+		}
+		return node(1, m)
+	}
+	var out []*Val
+	for _, n := range []int{5, 9, 17, 33} {
+		out = append(out, tree(n, false), tree(n, true))
+	}
+	return out
+}
+
+// RecMapPoolR5: the pairs of trees in ascending size first (the caller hashes them pairwise in this
+// order), then three ordinary values of the catalogue's pool.
+func RecMapPoolR5(g *Gen, t *Type) []*Val {
+	sp := g.liftR5(t, map[int]*Type{}, isRecMapR5, g.recTrees)
+	base := g.pool(t, map[int]*Type{}, 2)
+	if len(base) > 3 {
+		base = base[:3]
+	}
+	return append(sp, base...)
 }
 
 // mapSigR5: the contents of a map value without labels and insertion order (other values: their canon).
